@@ -71,6 +71,28 @@ var PathPool = []string{
 	"a.b/_3rd", "x/.2fa", "a/-9lives", "a/é9x", "a.b/9_", "x.y/__",
 }
 
+// SymbolThenDigit reports whether the last element of path begins with characters that are
+// not ASCII letters or digits directly followed by a digit (or consists of such characters
+// only after a digit run is dropped): the shapes for which "drop leading digits" and "drop
+// symbols" do not commute in the guessed alias.
+func SymbolThenDigit(path string) bool {
+	for len(path) > 0 && path[len(path)-1] == '/' {
+		path = path[:len(path)-1]
+	}
+	for i := len(path) - 1; i >= 0; i-- {
+		if path[i] == '/' {
+			path = path[i+1:]
+			break
+		}
+	}
+	alnum := func(b byte) bool { return b >= '0' && b <= '9' || b >= 'a' && b <= 'z' || b >= 'A' && b <= 'Z' }
+	i := 0
+	for i < len(path) && !alnum(path[i]) {
+		i++
+	}
+	return i > 0 && i < len(path) && path[i] >= '0' && path[i] <= '9'
+}
+
 var identPool = []string{"a", "b", "x", "y", "foo", "Bar", "T", "err", "i", "_", "ctx", "v1"}
 var opPool = []string{"+", "-", "*", "/", "=", ":=", "==", "!=", "<", "<-", "&&", "||", "!", "&", "...", ":", "++", ".", ";", "~", "|", ""}
 
